@@ -138,6 +138,23 @@ def gen(repo) -> str:
     ml_sorted = any(isinstance(n, ast.Call) and isinstance(n.func, ast.Name) and n.func.id == "sorted" and len(n.args) == 1
                     and isinstance(n.args[0], ast.Attribute) and n.args[0].attr == "argument_declared" for n in ast.walk(wrc))
 
+    # visitCode: the key list of `__M_locals.update(...)` after a <% %> block:  `[repr(x) for x in <EXPR>]`
+    vc = find_func(gen_cls.body, "visitCode", rel)
+    comps = [n for n in ast.walk(vc) if isinstance(n, ast.ListComp) and isinstance(n.elt, ast.Call)
+             and isinstance(n.elt.func, ast.Name) and n.elt.func.id == "repr"]
+    if len(comps) != 1 or len(comps[0].generators) != 1 or comps[0].generators[0].ifs:
+        raise RegenError("%s: visitCode has no single `[repr(x) for x in …]` key list for __M_locals.update" % rel)
+    it = comps[0].generators[0].iter
+    if isinstance(it, ast.Call) and isinstance(it.func, ast.Name) and it.func.id == "sorted" and len(it.args) == 1 and not it.keywords:
+        it = it.args[0]
+    src_it = ast.unparse(it)
+    if src_it == "node.declared_identifiers()":
+        ml_minus_args = False
+    elif "declared_identifiers()" in src_it and "argument_declared" in src_it and ("difference" in src_it or " - " in src_it):
+        ml_minus_args = True
+    else:
+        raise RegenError("%s: visitCode updates __M_locals with the keys `%s` (expected node.declared_identifiers())" % (rel, src_it))
+
     out = [HEADER % "mako/codegen.py (TOPLEVEL_DECLARED, RESERVED_NAMES, _Identifiers), mako/template.py (Template.reserved_names)",
            "", "namespace MakoModel.Generated.Names", "",
            "/-- `codegen.TOPLEVEL_DECLARED` (sorted) -/",
@@ -155,5 +172,7 @@ def gen(repo) -> str:
            "/-- `write_variable_declares` iterates `sorted(to_write)`; `__M_locals` is built from `sorted(argument_declared)` -/",
            "def declaresSorted : Bool := " + ("true" if declares_sorted else "false"),
            "def mlocalsSorted : Bool := " + ("true" if ml_sorted else "false"),
+           "/-- `visitCode` copies the declared identifiers of the block into `__M_locals` *minus* the body's arguments -/",
+           "def mlocalsUpdateMinusArgs : Bool := " + ("true" if ml_minus_args else "false"),
            "", "end MakoModel.Generated.Names", ""]
     return "\n".join(out)
